@@ -323,6 +323,13 @@ func (h *Hist) Apply(op string) string {
 			break
 		}
 	}
+	if h.Hooks.Supply && built.StateErr != nil {
+		// the staking trie could not be updated and the block was sealed all the same (limits.go): judged on its own,
+		// under its own signature; the state the path would go on with has lost pending records
+		h.viols = append(h.viols, stateErrViolation(h, built))
+		h.dead = true
+		return ob
+	}
 	if h.Hooks.Supply {
 		s, err := SupplyOf(h.Node, h.Txs)
 		h.R.Count("supply_checks", 1)
@@ -349,6 +356,13 @@ func (h *Hist) Apply(op string) string {
 					"force-settled online validators: "+who+"\n"+detail)
 				h.Genesis = s.Total
 				h.R.Count("forced_settle_losses_attributed", 1)
+			} else if who := residueLostWithDeletedValidator(pre, h.Node, diff); who != "" {
+				// third attributed defect (limits.go): a validator record deleted in this block (whole stake withdrawn)
+				// takes the rounding residue of its last settlement with it; bounded by its stake, in wei
+				h.fail("tokens destroyed when a validator record is deleted: the rounding residue of its last rewards settlement (RewardsDistributable, fewer wei than it had stake units) is deleted with the record",
+					"deleted validators: "+who+"\n"+detail)
+				h.Genesis = s.Total
+				h.R.Count("residue_losses_with_deleted_validators_attributed", 1)
 			} else {
 				h.fail(fmt.Sprintf("tokens %s: total supply changed (%s)", dir, supplyContext(h, built)), detail)
 				h.dead = true // later blocks only repeat the same discrepancy
